@@ -783,6 +783,22 @@ def oracle_jobs(ctx):
         for m in ('modpoly', 'imodpoly'):
             add('adaptive_minmax', rng.choice([48, 64]), {'method': m, 'poly_order': rng.choice([None, 2, [1, 3]]),
                                                          'constrained_fraction': rng.choice([0.01, 0.1])}, 'wrapper')
+    # I. magnitude: the same spectrum scaled towards both ends of the float range.  What is compared first is the
+    #    OUTCOME KIND (returns / raises, exception class) per configuration, then the values.  Every method whose solves
+    #    validate the solver output (check_output=True) at every scale, a sample of the others.
+    scales = ['1e-300', '1e-150', '1e-30', '1', '1e30', '1e150', '1e160']
+    for name, kw, n in (('airpls', {'lam': 1e6}, 100), ('airpls', {'lam': 1e3, 'max_iter': 3, 'tol': 0.0}, 64)):
+        for sc in scales:
+            add(name, n, dict(kw), f'scale={sc}', ykind='scale' + sc)
+    sample = ['asls', 'arpls', 'drpls', 'aspls', 'iasls', 'iarpls', 'psalsa', 'derpsalsa', 'brpls', 'lsrpls', 'jbcd', 'mpls',
+              'fabc', 'rubberband', 'pspline_asls', 'pspline_airpls', 'mixture_model', 'irsqr', 'beads', 'loess',
+              'std_distribution', 'custom_bc', 'imodpoly', 'snip']     # (collab_pls: the catalogue's second spectrum has a fixed offset)
+    for name in sample:
+        for sc in (scales if ctx.tier == 'thorough' else rng.sample(scales, 2)):
+            kw = dict(base_kw(name))
+            if name == 'beads':
+                kw = {'freq_cutoff': 0.05, 'max_iter': 3, 'tol': 0.0}      # fixed pass count: the stop rule is a knife edge
+            add(name, rng.choice([48, 64]), kw, f'scale={sc}', ykind='scale' + sc)
     # G. data kinds: large pedestals (relative to the noise), extreme overall scales, integer counts -- for every
     #    method that reaches an optionally compiled kernel (see expected_jit_functions in coq/C10/Sites.v) or a solver.
     #    A fallback that is only algebraically equal to the compiled kernel (e.g. E[x^2] - E[x]^2) cancels here.
@@ -868,6 +884,7 @@ def compare_oracle(ctx, jobs, results_by_env, enlarged=False):
     worst, ratio = {}, {}
     skipped = {'singular': 0, 'ill-conditioned': 0}
     ill_jobs = []
+    singular_jobs = []
     for job in jobs:
         per_ref = results_by_env[REF[0]]['oracle'].get(job['id'], {})
         ref = per_ref.get(str(REF[1]))
@@ -883,14 +900,35 @@ def compare_oracle(ctx, jobs, results_by_env, enlarged=False):
                 ill = ill or ref.get('exc') != pert.get('exc')      # raising depends on the last bit of the data
                 continue
             for k in ref:
+                if k == 'exc_msg':
+                    continue
                 if k == 'n_tol':
                     ill = ill or ref[k] != pert.get(k)
                     continue
                 dv = reldev(ref[k], pert.get(k, []), spread=(k == 'baseline'))
                 sens[k] = max(sens.get(k, 0.0), float('inf') if dv is None else dv)
+        if 'baseline' in sens and 'baseline' in ref and 'exc' not in ref:
+            a = np.array(ref['baseline'], dtype=float)
+            a = a[np.isfinite(a)]
+            if a.size and float(np.max(a) - np.min(a)) > 0:
+                # the data are only known to one unit in the last place of their LEVEL: relative to the spread of the
+                # result that is eps * level / spread, however the three random perturbations happened to round
+                sens['baseline'] = max(sens['baseline'], 2.0 ** -52 * float(np.max(np.abs(a))) / float(np.max(a) - np.min(a)))
         ill = ill or any(GAIN * v > ILL for v in sens.values())
         if ill:
             ill_jobs.append(f"{job['method']}:{job['tag']}:n={job['n']}:sens={ {k: float(f'{v:.1e}') for k, v in sens.items()} }")
+        # a system that LAPACK reports as singular / not positive definite in ANY configuration is ill-posed: Cholesky
+        # refuses it, LU and pentapy return whatever the elimination produces (zeros, NaN); nothing is compared
+        singular_job = False
+        for env in ENVS:
+            per = results_by_env[env]['oracle'].get(job['id']) or {}
+            for bs in job['bs_list']:
+                g = per.get(str(bs)) or {}
+                m = (g.get('exc_msg') or '').lower()
+                if g.get('exc') == 'LinAlgError' and ('positive definite' in m or 'singular' in m):
+                    singular_job = True
+        if singular_job:
+            singular_jobs.append(f"{job['method']}:{job['tag']}:n={job['n']}:seed={job['seed']}:kw={job['kw']}")
         for env in ENVS:
             per = results_by_env[env]['oracle'].get(job['id'])
             if per is None:
@@ -899,20 +937,25 @@ def compare_oracle(ctx, jobs, results_by_env, enlarged=False):
                 got = per[str(bs)]
                 if (env, bs) == REF:
                     continue
+                if singular_job:
+                    skipped['singular'] += 1
+                    continue
                 ctx.case(('oracle', job['method'], job['tag'], job['n'], job['seed'], env, bs, job.get('ykind'), json.dumps(job['kw'], sort_keys=True, default=str)),
                          nontrivial='baseline' in ref and not ill, kind=f'oracle:{job["tag"]}:numba={1 - env[0]}:pentapy={1 - env[1]}')
                 case = {'kind': 'oracle', 'job': job, 'block_numba': env[0], 'block_pentapy': env[1], 'bs': bs}
                 if ill:
                     skipped['ill-conditioned'] += 1
                     continue
-                if 'LinAlgError' in (ref.get('exc'), got.get('exc')) and ref.get('exc') != got.get('exc'):
+                msgs = (ref.get('exc_msg') or '') + ' ' + (got.get('exc_msg') or '')
+                if 'LinAlgError' in (ref.get('exc'), got.get('exc')) and ref.get('exc') != got.get('exc') \
+                        and ('positive definite' in msgs.lower() or 'singular' in msgs.lower()):
                     skipped['singular'] += 1      # numerically singular / indefinite: Cholesky refuses what LU accepts
                     continue
                 if ref.get('exc') != got.get('exc'):
                     nfail += 1
-                    ctx.fail(key + ':exception', f'{job["method"]}({job["kw"]}) n={job["n"]} seed={job["seed"]}: reference configuration gives '
-                             f'{ref.get("exc", "a baseline")} but banded_solver={bs}, numba blocked={env[0]}, pentapy blocked={env[1]} gives '
-                             f'{got.get("exc", "a baseline")}', case)
+                    ctx.fail(key + ':outcome', f'{job["method"]}({job["kw"]}) n={job["n"]} seed={job["seed"]}: reference configuration gives '
+                             f'{ref.get("exc", "a baseline")} ({ref.get("exc_msg", "")}) but banded_solver={bs}, numba blocked={env[0]}, '
+                             f'pentapy blocked={env[1]} gives {got.get("exc", "a baseline")} ({got.get("exc_msg", "")}); data kind {job.get("ykind")}', case)
                     continue
                 if 'exc' in ref:
                     continue
@@ -925,6 +968,10 @@ def compare_oracle(ctx, jobs, results_by_env, enlarged=False):
                             ctx.fail(key + ':iterations', f'{job["method"]}({job["kw"]}): {ref[k]} recorded iterations in the reference '
                                      f'configuration, {got.get(k)} under bs={bs}, numba blocked={env[0]}, pentapy blocked={env[1]}', case)
                         continue
+                    if 'tol_history' in k and not k.endswith('#shape') and not (
+                            np.all(np.isfinite(np.array(ref[k], dtype=float))) and np.all(np.isfinite(np.array(got.get(k, []), dtype=float)))):
+                        skipped['overflowed-convergence-record'] = skipped.get('overflowed-convergence-record', 0) + 1
+                        continue      # the cost / norm behind the record overflowed or underflowed: inf and nan are not ordered
                     dev = reldev(ref[k], got.get(k, []), spread=(k == 'baseline'))
                     if dev is None:
                         nfail += 1
@@ -943,6 +990,7 @@ def compare_oracle(ctx, jobs, results_by_env, enlarged=False):
     ctx.extra['oracle_worst_relative_deviation'] = {k: float(f'{v:.3e}') for k, v in sorted(worst.items())}
     ctx.extra['oracle_worst_fraction_of_allowance'] = {k: float(f'{v:.3e}') for k, v in sorted(ratio.items()) if v > 0.02}
     ctx.extra['oracle_ill_conditioned_jobs'] = ill_jobs
+    ctx.extra['oracle_singular_jobs'] = singular_jobs
     ctx.extra['oracle_not_compared'] = skipped
     return nfail
 
@@ -974,6 +1022,15 @@ def run(ctx):
     # ---- workers: capture + facts + oracle
     cases = gen_capture_cases(ctx)
     jobs = oracle_jobs(ctx)
+    # corpus: minimised witnesses of earlier failures, replayed on every run as ordinary oracle jobs
+    import glob
+    for k, path in enumerate(sorted(glob.glob(os.path.join(VERIF, 'corpus', 'C10_*.json')))):
+        try:
+            cj = json.load(open(path))['case']['job']
+        except (OSError, ValueError, KeyError):
+            ctx.broke('corpus', f'unreadable corpus file {path}')
+            continue
+        jobs.append(dict(cj, id=f'corpus{k}', bs_list=BS))
     bdb_cases = gen_bdb_cases(ctx)
     ps_cases = gen_ps_cases(ctx)
     tiny = tiny_beads_jobs(ctx)
